@@ -1,6 +1,6 @@
 \* C07/C08 leg A thorough (labels): stored names {a,b} x value {x}, <=2 series; external labels over
 \* {a,r} x {x,e}; replica lists over {a,r}; <=2 matchers over {a,b,r} of all four types incl. set
-\* regexes with an empty alternative, .* and .+; one slot, one range; one block.  ~2.0M states.
+\* regexes with an empty alternative (x|), .* and .+; one slot, one range; one block.  ~1.4M states.
 SPECIFICATION Spec
 CONSTANTS SNames = {"a", "b"}
           SVals = {"x"}
@@ -9,7 +9,7 @@ CONSTANTS SNames = {"a", "b"}
           RNames = {"a", "r"}
           MNames = {"a", "b", "r"}
           MVals = {"x"}
-          AltSeqs <- MC_Alts
+          AltSeqs <- MC_AltOne
           MaxSeries = 2
           MaxMatchers = 2
           SlotSets = {{0}}
